@@ -42,7 +42,28 @@ def recheck(ids):
             shutil.rmtree(wt.parent, ignore_errors=True)
 
 
+def table():
+    """python -m harness.seed --table: the markdown table of DESIGN.md section 8, from the meta.json files"""
+    def cell(r):
+        if not r:
+            return ""
+        if r["exit"] == 1 and r["violation_line"]:
+            return "tie" if "no-failing-input-found" in r["violation_line"] else "input"
+        return "–" if r["exit"] == 0 else f"exit {r['exit']}"
+    print("| change (seeded/…) | needs | own property | other checks run |\n|---|---|---|---|")
+    for d in sorted((VERIF / "seeded").iterdir()):
+        if not (d / "meta.json").exists():
+            continue
+        m = json.loads((d / "meta.json").read_text())
+        pid = m["breaks_property"]
+        own = cell(m["checks"].get(pid))
+        others = ", ".join(f"{p} {cell(r)}" for p, r in m["checks"].items() if p != pid)
+        print(f"| {m['seed']} | {m.get('needs_to_manifest', '')} | {pid} {own} | {others} |")
+
+
 def main():
+    if sys.argv[1] == "--table":
+        return table()
     if sys.argv[1] == "--recheck":
         return recheck(sys.argv[2:])
     one(sys.argv[1], Path(sys.argv[2]), sys.argv[3:])
